@@ -5,6 +5,7 @@ package c10
 import (
 	"fmt"
 	"math"
+	"math/big"
 	"strings"
 	"testing"
 	"time"
@@ -183,10 +184,30 @@ func genRamp(r *kit.Rand) rcase {
 	return c
 }
 
+// Witness of the recorded finding: read literally, "within 1 of the exact value" is exceeded
+// by the binary64 evaluation by 49/7200000000000 on this input (C10_within_one_refuted); the
+// excess is bounded by C10_close, and anything beyond that bound is still reported.
+func knownFindingWitness(o *kit.Out) {
+	const dur, target, off = int64(7_200_000_000_000), int64(1_293_707), int64(4_936_467_376_307)
+	t0 := time.Unix(0, base)
+	rates, err := staged.CalculateStagedRate(0, time.Second, fmt.Sprintf("%s:%d", time.Duration(dur), target), "none", &t0)
+	if err != nil {
+		o.Fail("c10-witness-error", "the witness profile was rejected: "+err.Error())
+		return
+	}
+	v := int64(rates.Rate(time.Unix(0, base+off)))
+	// |v*dur - off*target| > dur  <=>  |v - exact| > 1
+	lhs := new(big.Int).Sub(new(big.Int).Mul(big.NewInt(v), big.NewInt(dur)), new(big.Int).Mul(big.NewInt(off), big.NewInt(target)))
+	if lhs.Abs(lhs).Cmp(big.NewInt(dur)) > 0 {
+		o.Fail("within-one-exceeded-by-float-epsilon", fmt.Sprintf("staged profile 2h0m0s:%d queried %dns after its start yields %d; the exact interpolation is 886992+49/7200000000000, more than 1 away", target, off, v))
+	}
+}
+
 func TestC10(t *testing.T) {
 	o := kit.Get()
 	defer o.Close()
 	r := kit.NewRand(kit.Seed())
+	knownFindingWitness(o)
 
 	n := kit.N(1200, 15000)
 	for i := 0; i < n; i++ {
